@@ -10,13 +10,22 @@
 //!         polled; each schedule entry picks among the currently woken tasks; if no task is
 //!         woken while some are unfinished the run is reported as LOST (lost wake-up); the third
 //!         answer field is the sequence of polled tasks.
-//! lookup kind: 0 fill_symbol, 1 walk_frame, 2 get_symbol_at_address (only valid for keys with
+//! mode 2: concurrent `HttpSymbolSupplier::locate_file` calls against a loopback HTTP server inside a
+//!         current-thread tokio runtime; lookup kind = FileKind (0 BreakpadSym, 1 Binary, 2 ExtraDebugInfo);
+//!         per key: susp = the server yields that often before answering, outc = bit mask "the server has the
+//!         file of kind i"; wake-driven (one child per parent poll, picks choose). Answer: log = file keys
+//!         3*key+kind requested from the server (sorted), results S<file key whose cache path was returned> / E.
+//! mode 3: mode 1 plus drops: a pick 100+u drops task u's future if it is waiting for a slot's lock
+//!         (polled, pending, not inside the supplier); the trace records it as 100+u.
+//! mode 4: the tasks are the children of one `futures_util::future::join_all` (shared waker); the root is
+//!         polled only after its waker fired; last answer field = number of root polls.
+//! lookup kind (modes 0,1,3,4): 0 fill_symbol, 1 walk_frame, 2 get_symbol_at_address (only valid for keys with
 //!         cf=0, ci=0, df>0, di>0; otherwise treated as 0)
 //! outc: 0 Ok, 1 NotFound, 2 MissingDebugFileOrId, 3 LoadError, 4 ParseError
 //! answer: OK|HUNG|LOST;log;midreq/midproc/middone;results;req/proc;stats;rounds
 use async_trait::async_trait;
 use breakpad_symbols::{
-    FileError, FileKind, FrameWalker, LocateSymbolsResult, Module, SimpleFrame, SimpleModule,
+    FileError, FileKind, FrameWalker, HttpSymbolSupplier, LocateSymbolsResult, Module, SimpleFrame, SimpleModule,
     SymbolError, SymbolFile, SymbolSupplier, Symbolizer,
 };
 use debugid::{CodeId, DebugId};
@@ -25,7 +34,7 @@ use std::future::Future;
 use std::path::PathBuf;
 use std::pin::Pin;
 use std::str::FromStr;
-use std::sync::atomic::{AtomicBool, Ordering};
+use std::sync::atomic::{AtomicBool, AtomicUsize, Ordering};
 use std::sync::{Arc, Mutex};
 use std::task::{Context, Poll, Wake, Waker};
 use vharness::*;
@@ -76,6 +85,18 @@ struct Mock {
     keys: Vec<KeyTuple>,
     scripts: Vec<(u32, u8)>,
     log: Arc<Mutex<Vec<String>>>,
+    /// the task the executor is polling right now, and which tasks are inside locate_symbols
+    current: Arc<AtomicUsize>,
+    in_sup: Arc<Mutex<Vec<bool>>>,
+}
+
+struct InSup(Arc<Mutex<Vec<bool>>>, usize);
+impl Drop for InSup {
+    fn drop(&mut self) {
+        if let Some(b) = self.0.lock().unwrap().get_mut(self.1) {
+            *b = false;
+        }
+    }
 }
 
 fn sym_text(id: usize) -> String {
@@ -102,6 +123,11 @@ impl SymbolSupplier for Mock {
             Some(i) => self.scripts[i],
             None => (0, 1),
         };
+        let me = self.current.load(Ordering::SeqCst);
+        if let Some(b) = self.in_sup.lock().unwrap().get_mut(me) {
+            *b = true;
+        }
+        let _guard = InSup(self.in_sup.clone(), me);
         Suspend(susp).await;
         match outc {
             0 => Ok(LocateSymbolsResult {
@@ -228,6 +254,203 @@ async fn run_task(
     }
 }
 
+/// wakes the scheduler future (and so the runtime) in addition to setting the child's bit
+struct ChildWake {
+    flag: AtomicBool,
+    root: Arc<Mutex<Option<Waker>>>,
+}
+impl Wake for ChildWake {
+    fn wake(self: Arc<Self>) {
+        self.wake_by_ref()
+    }
+    fn wake_by_ref(self: &Arc<Self>) {
+        self.flag.store(true, Ordering::SeqCst);
+        if let Some(w) = self.root.lock().unwrap().as_ref() {
+            w.wake_by_ref();
+        }
+    }
+}
+
+/// Polls one woken child per poll (chosen by the next pick), then yields to the runtime so that
+/// the loopback server and the I/O driver make progress.
+struct Sched<'a> {
+    futs: Vec<Option<Pin<Box<dyn Future<Output = ()> + 'a>>>>,
+    wakes: Vec<Arc<ChildWake>>,
+    wakers: Vec<Waker>,
+    root: Arc<Mutex<Option<Waker>>>,
+    picks: Vec<usize>,
+    si: usize,
+}
+impl<'a> Future for Sched<'a> {
+    type Output = ();
+    fn poll(mut self: Pin<&mut Self>, cx: &mut Context<'_>) -> Poll<()> {
+        let this = &mut *self;
+        *this.root.lock().unwrap() = Some(cx.waker().clone());
+        if this.futs.iter().all(|f| f.is_none()) {
+            return Poll::Ready(());
+        }
+        let woken: Vec<usize> = (0..this.futs.len())
+            .filter(|&i| this.futs[i].is_some() && this.wakes[i].flag.load(Ordering::SeqCst))
+            .collect();
+        if woken.is_empty() {
+            return Poll::Pending; // a child's waker will wake us
+        }
+        let pick = if this.si < this.picks.len() { this.picks[this.si] } else { 0 };
+        this.si += 1;
+        let i = woken[pick % woken.len()];
+        this.wakes[i].flag.store(false, Ordering::SeqCst);
+        let mut ccx = Context::from_waker(&this.wakers[i]);
+        if this.futs[i].as_mut().unwrap().as_mut().poll(&mut ccx).is_ready() {
+            this.futs[i] = None;
+        }
+        if this.futs.iter().all(|f| f.is_none()) {
+            return Poll::Ready(());
+        }
+        if (0..this.futs.len()).any(|i| this.futs[i].is_some() && this.wakes[i].flag.load(Ordering::SeqCst)) {
+            cx.waker().wake_by_ref();
+        }
+        Poll::Pending
+    }
+}
+
+fn file_kind(k: u8) -> FileKind {
+    match k {
+        0 => FileKind::BreakpadSym,
+        1 => FileKind::Binary,
+        _ => FileKind::ExtraDebugInfo,
+    }
+}
+
+fn run_files(tasks: &[Vec<(usize, u8)>], mods: &[SimpleModule], scripts: &[(u32, u8)], picks: &[usize]) -> String {
+    use std::collections::HashMap;
+    use tokio::io::{AsyncReadExt, AsyncWriteExt};
+    // expected paths of every file key 3*key+kind (through the crate's own lookup())
+    let mut server_path: HashMap<String, usize> = HashMap::new();
+    let mut cache_path: HashMap<String, usize> = HashMap::new();
+    let mut table: HashMap<String, (u32, bool)> = HashMap::new();
+    for (k, m) in mods.iter().enumerate() {
+        for kind in 0..3u8 {
+            if let Some(l) = breakpad_symbols::lookup(m, file_kind(kind)) {
+                let fk = 3 * k + kind as usize;
+                server_path.entry(l.server_rel.clone()).or_insert(fk);
+                cache_path.entry(l.cache_rel.clone()).or_insert(fk);
+                table
+                    .entry(l.server_rel.clone())
+                    .or_insert((scripts[k].0, (scripts[k].1 >> kind) & 1 == 1));
+            }
+        }
+    }
+    let table = Arc::new(table);
+    let reqlog = Arc::new(Mutex::new(Vec::<String>::new()));
+    let rt = tokio::runtime::Builder::new_current_thread().enable_all().build().expect("runtime");
+    let outs: Vec<RefCell<Vec<String>>> = (0..tasks.len()).map(|_| RefCell::new(vec![])).collect();
+    let cache = tempfile::tempdir().expect("cache dir");
+    let tmp = tempfile::tempdir().expect("tmp dir");
+    let status = rt.block_on(async {
+        let listener = tokio::net::TcpListener::bind("127.0.0.1:0").await.expect("bind loopback");
+        let port = listener.local_addr().unwrap().port();
+        let (tb, lg) = (table.clone(), reqlog.clone());
+        let server = tokio::spawn(async move {
+            loop {
+                let (mut sock, _) = match listener.accept().await {
+                    Ok(x) => x,
+                    Err(_) => break,
+                };
+                let (tb, lg) = (tb.clone(), lg.clone());
+                tokio::spawn(async move {
+                    let mut buf = vec![];
+                    let mut chunk = [0u8; 1024];
+                    while !buf.windows(4).any(|w| w == b"\r\n\r\n") {
+                        match sock.read(&mut chunk).await {
+                            Ok(0) | Err(_) => return,
+                            Ok(n) => buf.extend_from_slice(&chunk[..n]),
+                        }
+                    }
+                    let head = String::from_utf8_lossy(&buf).to_string();
+                    let target = head.split_whitespace().nth(1).unwrap_or("/").to_string();
+                    let path = target.split('?').next().unwrap_or("").trim_start_matches('/').to_string();
+                    lg.lock().unwrap().push(path.clone());
+                    let (delay, found) = tb.get(&path).copied().unwrap_or((0, false));
+                    for _ in 0..delay {
+                        tokio::task::yield_now().await;
+                    }
+                    let resp = if found {
+                        let body = format!("file {}", path);
+                        format!("HTTP/1.1 200 OK\r\nContent-Length: {}\r\nConnection: close\r\n\r\n{}", body.len(), body)
+                    } else {
+                        "HTTP/1.1 404 Not Found\r\nContent-Length: 0\r\nConnection: close\r\n\r\n".to_string()
+                    };
+                    let _ = sock.write_all(resp.as_bytes()).await;
+                    let _ = sock.shutdown().await;
+                });
+            }
+        });
+        let supplier = HttpSymbolSupplier::new(
+            vec![format!("http://127.0.0.1:{}/", port)],
+            cache.path().to_path_buf(),
+            tmp.path().to_path_buf(),
+            vec![],
+            std::time::Duration::from_secs(10),
+        );
+        let root = Arc::new(Mutex::new(None));
+        let wakes: Vec<Arc<ChildWake>> = (0..tasks.len())
+            .map(|_| Arc::new(ChildWake { flag: AtomicBool::new(true), root: root.clone() }))
+            .collect();
+        let wakers: Vec<Waker> = wakes.iter().map(|w| Waker::from(w.clone())).collect();
+        let cache_root = cache.path().to_path_buf();
+        let futs: Vec<Option<Pin<Box<dyn Future<Output = ()> + '_>>>> = tasks
+            .iter()
+            .enumerate()
+            .map(|(i, lk)| {
+                let (sup, out, cp, cr) = (&supplier, &outs[i], &cache_path, &cache_root);
+                let b: Pin<Box<dyn Future<Output = ()> + '_>> = Box::pin(async move {
+                    for &(k, kind) in lk {
+                        let class = match sup.locate_file(&mods[k], file_kind(kind)).await {
+                            Ok(path) => {
+                                let rel = path
+                                    .strip_prefix(cr)
+                                    .map(|p| p.to_string_lossy().replace('\\', "/"))
+                                    .unwrap_or_default();
+                                match cp.get(&rel) {
+                                    Some(fk) => format!("S{}", fk),
+                                    None => "S?".to_string(),
+                                }
+                            }
+                            Err(_) => "E".to_string(),
+                        };
+                        out.borrow_mut().push(class);
+                    }
+                });
+                Some(b)
+            })
+            .collect();
+        let sched = Sched { futs, wakes, wakers, root, picks: picks.to_vec(), si: 0 };
+        let st = match tokio::time::timeout(std::time::Duration::from_secs(8), sched).await {
+            Ok(()) => "OK",
+            Err(_) => "LOST",
+        };
+        server.abort();
+        st
+    });
+    let mut ids: Vec<String> = vec![];
+    let mut reqs: Vec<usize> = vec![];
+    for p in reqlog.lock().unwrap().iter() {
+        match server_path.get(p) {
+            Some(fk) => reqs.push(*fk),
+            None => ids.push(format!("?{}", p)),
+        }
+    }
+    reqs.sort();
+    ids.extend(reqs.iter().map(|x| x.to_string()));
+    let dash = |s: String| if s.is_empty() { "-".to_string() } else { s };
+    format!(
+        "{};{};-;{};-;-;0",
+        status,
+        dash(ids.join(".")),
+        outs.iter().map(|o| dash(o.borrow().join("."))).collect::<Vec<_>>().join("|")
+    )
+}
+
 fn run(line: &str) -> String {
     let mut t = Toks::new(line);
     let mode = t.u64();
@@ -259,16 +482,59 @@ fn run(line: &str) -> String {
     }
     let ns = t.usize();
     let sched: Vec<usize> = (0..ns).map(|_| t.usize()).collect();
+    if mode == 2 {
+        return run_files(&tasks, &mods, &scripts, &sched);
+    }
 
     let log = Arc::new(Mutex::new(Vec::<String>::new()));
-    let symbolizer = Symbolizer::new(Mock { keys, scripts, log: log.clone() });
+    let current = Arc::new(AtomicUsize::new(usize::MAX));
+    let in_sup = Arc::new(Mutex::new(vec![false; nt]));
+    let symbolizer = Symbolizer::new(Mock {
+        keys,
+        scripts,
+        log: log.clone(),
+        current: current.clone(),
+        in_sup: in_sup.clone(),
+    });
     let outs: Vec<RefCell<Vec<String>>> = (0..nt).map(|_| RefCell::new(vec![])).collect();
     let flags: Vec<Arc<Flag>> = (0..nt).map(|_| Arc::new(Flag(AtomicBool::new(true)))).collect();
     let wakers: Vec<Waker> = flags.iter().map(|f| Waker::from(f.clone())).collect();
+    let polled: Vec<AtomicBool> = (0..nt).map(|_| AtomicBool::new(false)).collect();
     let mut status = "OK";
     let mut rounds = 0usize;
     let mid;
-    {
+    if mode == 4 {
+        // the children of one join_all share the root's waker
+        let root_flag = Arc::new(Flag(AtomicBool::new(true)));
+        let root_waker = Waker::from(root_flag.clone());
+        let children: Vec<Pin<Box<dyn Future<Output = ()> + '_>>> = tasks
+            .iter()
+            .enumerate()
+            .map(|(i, lk)| {
+                let b: Pin<Box<dyn Future<Output = ()> + '_>> =
+                    Box::pin(run_task(&symbolizer, &mods, lk.clone(), &outs[i]));
+                b
+            })
+            .collect();
+        let mut root = Box::pin(futures_util::future::join_all(children));
+        loop {
+            if !root_flag.0.load(Ordering::SeqCst) {
+                status = "LOST";
+                break;
+            }
+            if rounds >= 10_000 {
+                status = "HUNG";
+                break;
+            }
+            root_flag.0.store(false, Ordering::SeqCst);
+            rounds += 1;
+            let mut cx = Context::from_waker(&root_waker);
+            if root.as_mut().poll(&mut cx).is_ready() {
+                break;
+            }
+        }
+        mid = "-".to_string();
+    } else {
         let mut futs: Vec<Option<Pin<Box<dyn Future<Output = ()> + '_>>>> = tasks
             .iter()
             .enumerate()
@@ -284,6 +550,8 @@ fn run(line: &str) -> String {
             }
             if let Some(f) = futs[i].as_mut() {
                 flags[i].0.store(false, Ordering::SeqCst);
+                current.store(i, Ordering::SeqCst);
+                polled[i].store(true, Ordering::SeqCst);
                 let mut cx = Context::from_waker(&wakers[i]);
                 if f.as_mut().poll(&mut cx).is_ready() {
                     futs[i] = None;
@@ -316,6 +584,20 @@ fn run(line: &str) -> String {
             let mut si = 0usize;
             let mut polls = 0usize;
             loop {
+                if mode == 3 && si < sched.len() && sched[si] >= 100 {
+                    // drop a requester that is waiting for a slot's lock
+                    let u = sched[si] - 100;
+                    si += 1;
+                    let waiting = u < nt
+                        && futs[u].is_some()
+                        && polled[u].load(Ordering::SeqCst)
+                        && !in_sup.lock().unwrap()[u];
+                    if waiting {
+                        futs[u] = None; // runs MutexLockFuture::drop
+                        trace.push((100 + u).to_string());
+                    }
+                    continue;
+                }
                 if futs.iter().all(|f| f.is_none()) {
                     break;
                 }
